@@ -163,7 +163,7 @@ package storage
 //@   ensures only-delegates: forall b ref :: b in ghost.sinkBuckets && !(b in old(ghost.sinkBuckets)) ==> (exists j int :: 0 <= j && j < len(m.delegates) && b == m.delegates[j])
 //@   ensures union-consults-all: !m.overlay && err == nil ==> (forall j int :: 0 <= j && j < len(m.delegates) ==> m.delegates[j] in ghost.sinkBuckets)
 //@   ensures overlay-first-hit: m.overlay && err == nil ==> (forall b ref :: b in ghost.sinkBuckets && !(b in old(ghost.sinkBuckets)) ==> (exists j int :: 0 <= j && j <= idx && b == m.delegates[j]))
-//@   ensures none-is-not-exist: err != nil && (forall j int :: 0 <= j && j < len(m.delegates) ==> m.delegates[j] in ghost.sinkBuckets) && typeOf(err) == typeId(*fs.PathError) && allocated(err) && !old(allocated(err)) ==> cast(*fs.PathError, err).Err == fs.ErrNotExist
+//@   assert before "return nil, 0, &fs.PathError{Op: op, Path: path, Err: fs.ErrNotExist}" none-is-not-exist: len(objectInfos) == 0 && (forall j int :: 0 <= j && j < len(m.delegates) ==> m.delegates[j] in ghost.sinkBuckets)
 //@   loop 0 invariant len(objectInfos) == len(delegateIndices)
 //@   loop 0 invariant m.overlay ==> len(objectInfos) == 0
 //@   loop 0 invariant forall j int :: 0 <= j && j < len(objectInfos) ==> objectInfos[j] != nil && 0 <= delegateIndices[j] && delegateIndices[j] < $i
